@@ -1105,7 +1105,9 @@ def run_shard(spec, rec):
                 break
             items = [{'t': '=1' + '+1' * n, 'k': 'long'}, {'t': '=SUM(' + ','.join(['2'] * n) + ')', 'k': 'long'}, {'t': '=' + '-' * n + '1', 'k': 'long'},
                      {'t': '="a"' + '&"b"' * n, 'k': 'long'}, {'t': '=' + '(' * n + '1' + ')' * n, 'k': 'long'}, {'t': '=1' + '+1' * n + ')', 'k': 'long'},
-                     {'t': '=IF(1,' * min(n, 300) + '1' + ',2)' * min(n, 300), 'k': 'long'}]
+                     {'t': '=IF(1,' * min(n, 300) + '1' + ',2)' * min(n, 300), 'k': 'long'},
+                     {'t': '=1' + '<2' * n, 'k': 'long'}, {'t': '=A1' + '%' * n, 'k': 'long'}, {'t': '=1' + '=1' * n + '=', 'k': 'long'},
+                     {'t': '=COUNTIFS(A1:A3,">' + '9' * n + '")', 'k': 'long'}, {'t': '=COUNTIFS(A1:A3,">1e' + str(n) + '")', 'k': 'long'}]
             for f in run_texts([it for it in items if len(it['t']) < 30000], rec):
                 rec.fail(**f)
     elif spec['kind'] == 'ref-to-bad':
